@@ -608,6 +608,12 @@ func (lexposEngine) Gen(r *Rand, tier string) [][]string {
 		add("l", []byte(s))
 		add("s", []byte(s))
 	}
+	for i, s := range lexEscapeNewlineShapes() {
+		add("l", []byte(s))
+		if i%4 == 0 {
+			add("s", []byte(s))
+		}
+	}
 	cnt := 600
 	if tier == "thorough" {
 		cnt = 30000
@@ -952,6 +958,37 @@ func (lexLiteralEngine) Gen(r *Rand, tier string) [][]string {
 	return lexSingleOpCases(ops)
 }
 
+// lexEscapeNewlineShapes: string literals (both quote kinds) whose escapes have a raw LF, CR LF,
+// a multi-byte character or a blank line at every position among and after the escape's digits,
+// followed by more tokens and a later lexer error (so that, with a reporter that continues, a
+// newline that missed the line table shows in a reported position); plus LF inside comments right
+// before EOF and BOM + LF combinations.
+func lexEscapeNewlineShapes() []string {
+	var out []string
+	type esc struct{ prefix, digits string }
+	escs := []esc{{"\\x", "4f"}, {"\\X", "4"}, {"\\u", "0041"}, {"\\U", "00000041"}, {"\\", "101"}, {"\\", "7"},
+		{"\\n", ""}, {"\\", ""}, {"\\q", ""}, {"\\u", "00"}, {"\\U", "0010"}}
+	inserts := []string{"\n", "\r\n", "\u00e9", "\n\n"}
+	tails := []string{" x = 1;\n$ y", "\n\t$"}
+	for _, q := range []string{"\"", "'"} {
+		for _, e := range escs {
+			for i := 0; i <= len(e.digits); i++ {
+				for _, ins := range inserts {
+					lit := q + "a" + e.prefix + e.digits[:i] + ins + e.digits[i:] + "b" + q
+					for _, t := range tails {
+						out = append(out, lit+t)
+					}
+				}
+			}
+			// unterminated, newline right after the escape prefix
+			out = append(out, q+e.prefix+"\n$", "k = "+q+e.prefix+e.digits+"\n"+q+";\n$")
+		}
+	}
+	out = append(out, "// c\n", "// c\r\n", "/* c\n", "/* c\n*/", "/* c\n*/\n", "a // c\n", "a /* c\n\n", "$ // c\n$", "/*\n*/$\n$",
+		"\xef\xbb\xbf\n", "\xef\xbb\xbf\n\n$", "\xef\xbb\xbf\"\n$", "\xef\xbb\xbf// c\n$", "\xef\xbb\xbf\"\\u00\n41\"\n$", "\n\xef\xbb\xbf\n$")
+	return out
+}
+
 // lexErrorShapes: inputs that drive the parser through each of its error productions
 // ("expecting ';'", "unexpected '.'", "unexpected ','", valueless / empty compact options, bad
 // negative identifiers) in every declaration kind that can carry them.
@@ -1144,6 +1181,12 @@ func (lextotalEngine) Gen(r *Rand, tier string) [][]string {
 		add("l", []byte(sh))
 		add("s", []byte(sh))
 		add("l", g.mutate([]byte(sh)))
+	}
+	for i, sh := range lexEscapeNewlineShapes() {
+		add("l", []byte(sh))
+		if i%4 == 0 {
+			add("s", []byte(sh))
+		}
 	}
 	// deep nesting
 	for _, d := range []int{1, 10, 100, 1000} {
